@@ -37,7 +37,7 @@ Frame(sec, ret, kv) ==
 PInit(root, pc, file, kvroot, cn, vn, fn) ==
   [stack |-> <<Frame(root, [oi |-> 0, ii |-> 0], kvroot)>>,
    status |-> "more", pc |-> pc, file |-> file, line |-> 1,
-   diags |-> <<>>, depr |-> FALSE, cblog |-> <<>>, freed |-> <<>>,
+   diags |-> <<>>, depr |-> FALSE, ndep |-> 0, cblog |-> <<>>, freed |-> <<>>,
    cn |-> cn, vn |-> vn, fn |-> fn,
    (* include files: fs maps a name to [kind |-> "file" | "dir", toks |-> tokens of the file]; *)
    (* inc is the stack of saved (file, line) of the including sources; incq a pending request  *)
@@ -115,7 +115,7 @@ RunValid(ps, f) ==
 HandleDeprecated(ps, f) ==
   IF f.oi = 0 \/ "DEPRECATED" \notin CurOpt(f).flags THEN [ps |-> ps, f |-> f]
   ELSE LET o == CurOpt(f)
-       IN [ps |-> [ps EXCEPT !.depr = TRUE,
+       IN [ps |-> [ps EXCEPT !.depr = TRUE, !.ndep = @ + 1,      \* one notice per visit
                              !.freed = @ \o (IF "DROP" \in o.flags THEN PtrsOfOpt(o) ELSE <<>>)],
            f  |-> [(IF "DROP" \in o.flags THEN SetOpt(f, FreeValue(o)) ELSE f) EXCEPT !.oi = 0]]
 
@@ -226,10 +226,13 @@ PStepCore(ps, t) ==
        (* comments are transparent everywhere; with annotation support the  *)
        (* text is remembered while a name is expected                      *)
        IF f.st = 0
-         THEN LET h == HandleDeprecated(ps, f)
+         THEN (* the deprecated option stays the "current" one across a comment: the notice *)
+              (* is given again when the next token is looked at                           *)
+              LET h  == HandleDeprecated(ps, f)
+                  hf == [h.f EXCEPT !.oi = f.oi]
               IN IF ps.pc.comments
-                   THEN SetTop(h.ps, [h.f EXCEPT !.cmt = t.v, !.stale = FALSE])
-                   ELSE SetTop(h.ps, h.f)
+                   THEN SetTop(h.ps, [hf EXCEPT !.cmt = t.v, !.stale = FALSE])
+                   ELSE SetTop(h.ps, hf)
          ELSE ps
   ELSE IF k = "eof" THEN
        IF f.st # 0 \/ Len(ps.stack) > 1 THEN FailD(ps)
